@@ -399,6 +399,28 @@ GeoProject ==
      LET r == NearestSet(a.curve, a.px, a.py) IN
      /\ heap' = heap /\ act' = [name |-> "GeoProject"] @@ a /\ depth' = depth + 1 /\ UNCHANGED memo
      /\ ret' = Ret("ok", [d2 |-> r.d2, us |-> r.us])
+(* a point ON a planar curve of any degree (rational allowed) is projected onto itself; every returned  *)
+(* interior parameter that is not a knot is stationary (checked numerically by the harness)               *)
+GeoProjectOn ==
+  \E a \in ArgsOf("GeoProjectOn", heap, depth) :
+     LET cx == Curve(a.curve.U, a.curve.X, a.curve.W) cy == Curve(a.curve.U, a.curve.Y, a.curve.W) IN
+     /\ heap' = heap /\ act' = [name |-> "GeoProjectOn"] @@ a /\ depth' = depth + 1 /\ UNCHANGED memo
+     /\ ret' = Ret("ok", [u0 |-> a.u0, px |-> Eval(cx, a.u0), py |-> Eval(cy, a.u0)])
+
+(* two planar curves of any degree: returned pairs must be sound; disjoint bounding boxes of the control *)
+(* polygons (convex hull property, positive weights) => the curves do not meet => empty result          *)
+CtrlBox(c) == [xmin |-> CHOOSE v \in {c.X[i] : i \in DOMAIN c.X} : \A w \in {c.X[i] : i \in DOMAIN c.X} : Le(v, w),
+               xmax |-> CHOOSE v \in {c.X[i] : i \in DOMAIN c.X} : \A w \in {c.X[i] : i \in DOMAIN c.X} : Le(w, v),
+               ymin |-> CHOOSE v \in {c.Y[i] : i \in DOMAIN c.Y} : \A w \in {c.Y[i] : i \in DOMAIN c.Y} : Le(v, w),
+               ymax |-> CHOOSE v \in {c.Y[i] : i \in DOMAIN c.Y} : \A w \in {c.Y[i] : i \in DOMAIN c.Y} : Le(w, v)]
+BoxesDisjoint(A, B) ==
+  LET a == CtrlBox(A) b == CtrlBox(B) IN
+  Lt(a.xmax, b.xmin) \/ Lt(b.xmax, a.xmin) \/ Lt(a.ymax, b.ymin) \/ Lt(b.ymax, a.ymin)
+GeoIntersectCurved ==
+  \E a \in ArgsOf("GeoIntersectCurved", heap, depth) :
+     /\ heap' = heap /\ act' = [name |-> "GeoIntersectCurved"] @@ a /\ depth' = depth + 1 /\ UNCHANGED memo
+     /\ ret' = Ret("ok", [disjoint |-> BoxesDisjoint(a.A, a.B)])
+
 GeoIntersect ==
   \E a \in ArgsOf("GeoIntersect", heap, depth) :
      LET r == Crossings(a.A, a.B) IN
@@ -413,7 +435,7 @@ Next == /\ depth < MaxDepth
            \/ CvKnotRemove \/ CvDegreeDecrease \/ CvClean \/ CvJoin \/ CvArith \/ CvScalar
            \/ CvEq \/ CvCopy \/ CvFraction \/ CvSetCtrlpoints \/ CvSetWeights \/ CvSetKnotvector \/ CvSplitTake \/ KvConvert
            \/ KvGen \/ CvDerivate \/ CvIntegrate \/ MemoRequest \/ CvFitCurve \/ CvFitPoints \/ CvFitFunction
-           \/ GeoProject \/ GeoIntersect \/ IntegrateFn \/ GeoLength
+           \/ GeoProject \/ GeoIntersect \/ IntegrateFn \/ GeoLength \/ GeoProjectOn \/ GeoIntersectCurved
 
 Spec == Init /\ [][Next]_vars
 
